@@ -59,6 +59,9 @@ def build(e, leaves):
     if tag == "getitem":
         _, a, idx = e
         return build(a, leaves)[build(idx, leaves)]
+    if tag == "getitem_at":
+        _, a, idx, off = e
+        return build(a, leaves)[(slice(None),) * off + (build(idx, leaves),)]
     if tag == "getslice":
         _, a, index = e
         return build(a, leaves)[index]
